@@ -233,7 +233,7 @@ def _guarded_parse(model, text, limit=1500, seconds=5):
     from tatsu.exceptions import TatSuException
     old = sys.getrecursionlimit()
     sys.setrecursionlimit(limit)
-    signal.alarm(seconds)
+    signal.setitimer(signal.ITIMER_VIRTUAL, seconds)  # CPU time: robust against a busy machine
     try:
         model.parse(text)
         return 'ok', ''
@@ -246,7 +246,7 @@ def _guarded_parse(model, text, limit=1500, seconds=5):
     except Exception as e:
         return 'other', f'{type(e).__name__}: {e}'[:200]
     finally:
-        signal.alarm(0)
+        signal.setitimer(signal.ITIMER_VIRTUAL, 0)
         sys.setrecursionlimit(old)
 
 
@@ -260,7 +260,7 @@ def _alarm(_s, _f):
 
 def _work_a(job):
     n, codes, compile_every = job
-    signal.signal(signal.SIGALRM, _alarm)
+    signal.signal(signal.SIGVTALRM, _alarm)
     import tatsu
     cases = dict(scc=0, cycles=0, leaders=0, compiled=0)
     nontriv = dict(scc=0, cycles=0, leaders=0)
@@ -606,7 +606,7 @@ def check_undefined(g, k):
 
 
 def _work_b(job):
-    signal.signal(signal.SIGALRM, _alarm)
+    signal.signal(signal.SIGVTALRM, _alarm)
     out = []
     for kind, g, k in job:
         if kind == 'graph':
